@@ -170,6 +170,7 @@ func (e *Exec) initClosed(st *Store, coll *CollV, n int) {
 		}
 		val := e.symValue(coll.VT, name)
 		en := &Entry{Key: key, KeyV: kv, Present: true, Val: val}
+		e.inits = append(e.inits, initRec{Coll: coll.Name, Key: key, Present: true, Val: deepCopy(val)})
 		if i > 0 {
 			e.assertPC(e.keyLess(st.Entries[i-1].Key, key, coll.KT))
 		}
@@ -301,6 +302,7 @@ func (e *Exec) lookupEntry(c *CtxV, coll *CollV, kv Value) *Entry {
 		en.Val = e.symValue(coll.VT, name)
 	}
 	st.Entries = append(st.Entries, en)
+	e.inits = append(e.inits, initRec{Coll: coll.Name, Key: k, Present: en.Present, Val: deepCopy(en.Val)})
 	return en
 }
 
